@@ -695,6 +695,11 @@ func init() {
 				sh = append(sh, vShard{Name: fmt.Sprintf("bm25/lengths/%d", part), Run: func(c *vCtx) { vC03Lengths(c, mine) }})
 			}
 			sh = append(sh, vShard{Name: "bm25/colliding", Run: vC03Colliding})
+			// observation gaps (zz_verif_obsgap.go): three texts, two ids, Observe in the alphabet
+			sh = append(sh, vShard{Name: "bm25/obsgap", Run: func(c *vCtx) {
+				in := &vC03Sys{c: c, cfgS: "bm25 obsgap ids=2", nids: 2, texts: []string{"a", "a a b", "b c"}}
+				vBFS(c, &vObsGapSys{inner: in}, 7)
+			}})
 			sh = append(sh, vShard{Name: "bm25/sweep", Run: func(c *vCtx) { vC03Sweep(c, maxN) }})
 			sh = append(sh, vShard{Name: "bm25/endurance", Run: func(c *vCtx) { vC03Endurance(c, 70000) }})
 			lg := [][]int{{1500}, {2600}}
@@ -757,6 +762,12 @@ func init() {
 					fmt.Sscanf(v.Config[i:], " L=%d", &l)
 				}
 				vC03Lengths(c, []int{l})
+				_, ok := c.viol[v.Sig()]
+				return ok
+			}
+			if v.Config == "bm25 obsgap ids=2" {
+				in := &vC03Sys{c: c, cfgS: v.Config, nids: 2, texts: []string{"a", "a a b", "b c"}}
+				vReplayHist(&vObsGapSys{inner: in}, v.History)
 				_, ok := c.viol[v.Sig()]
 				return ok
 			}
